@@ -152,7 +152,7 @@ pub fn c10_container() {
     container_case(1 << 32)
 }
 
-/// @tier thorough @timeout 1800
+/// @timeout 900
 /// @bounds as c10_container with every usize margin (deserialised trees can carry any value)
 /// @encodes view::container::Container::layout
 #[cfg_attr(kani, kani::proof)]
